@@ -86,6 +86,22 @@ def finish(ctx, q, ncls, ncases, crashes, allfails):
     ctx.assumptions += ["coverage-guided fuzzing is a different technique family and is not used: the byte-level half of the quantifier is covered by seeded mutation only",
                         "stall is judged with a sentinel within 5 s (three tries) on loopback"]
     ctx.trusted += ["TLC 1.8.0", "runtime.MemStats.TotalAlloc deltas"]
+    # the same kind of input on SEVERAL listeners of one service at once (a service started by startProxy has one message loop per
+    # listener; every request names a To host never seen before): the process must survive.  Delivery accounting under
+    # concurrency is C09's business - here only "does not panic or exit".
+    rc, out = ctx.run_driver("TestVfStress", env={"VERIF_MODE": "probe", "VERIF_HANG_S": 0, "VERIF_TRACE": os.path.join(ctx.scratch, "c08_listeners.ndjson"), "VERIF_PER": 200 if q else 1000},
+                             timeout=1500, allow_fail=True)
+    if rc != 0:
+        if "VF-INFRA" in out:
+            raise Infra("stress driver self-check failed:\n" + out[-3000:])
+        m = re.search(r"^(fatal error: .*|panic: .*)$", out, re.M)
+        ps = panic_site(out, ctx.srcdir())
+        if not (m and ps and ps[2]):
+            raise Infra("stress driver failed:\n" + out[-4000:])
+        p = os.path.join(ctx.scratch, "crash_listeners.txt")
+        open(p, "w").write(out[-8000:])
+        ctx.violation("the proxy died while several of its listeners received traffic at once: %s (%s:%s)" % (m.group(1)[:200], ps[0], ps[1]), files=[p], tag="crash-listeners")
+    ctx.evaluations += 1
     # crashes: class = panic site
     cf = [{"line": 0, "case": c["case"], "what": "P:C08:panic-or-exit", "detail": c["site"] + " " + c["panic"], "trace": None, "crash": c} for c in crashes]
     known, new = ctx.classify(cf, lambda f: "crash:" + f["crash"]["site"].split(":")[0])
